@@ -464,3 +464,26 @@ def _stale(model, rep, tier):
                    False, 'name %r is bound only by an earlier, finished loop: every iteration sees that loop\'s last value'
                    % name, engine='flow', qual=q)
     rep.count('functions scanned for stale loop variables', n)
+
+
+OC, GF, CS = 'onsager/OnsagerCalc.py', 'onsager/GFcalc.py', 'onsager/crystalStars.py'
+BREAKERS = [
+    (OC, "        diffuser.threshold = diffuser.crys.threshold\n", "", 'loader-defines-attributes'),
+    (OC, "zip(HDF5group['omega1_ij'][()],", "zip(HDF5group['omega1_IJ'][()],", 'reader-keys-subset-writer'),
+    (GF, "        GFcalc.D, GFcalc.eta = None, 0  # we don't yet know the diffusivity", "        GFcalc.D, GFcalc.eta = 0, 0  # we don't yet know the diffusivity", 'ctor-loader-constants'),
+    (OC, "        diffuser.thermo = stars.StarSet.loadhdf5(diffuser.crys, HDF5group['thermo'])", "        diffuser.thermo = stars.StarSet.loadhdf5(diffuser.crys, HDF5group['kinetic'])",
+     'subobject-pairing'),
+    (OC, "            diffuser.Lvvvalues = arrays2vTKdict(HDF5group['Lvvvalues_vTK'],\n                                                HDF5group['Lvvvalues_values'],",
+     "            diffuser.Lvvvalues = arrays2vTKdict(HDF5group['Lvvvalues_vTK'],\n                                                HDF5group['GFvalues_values'],", 'cache-one-predicate'),
+    (OC, "    return np.array(vTKlist), np.array(vallist), vTKsplits", "    return np.array(vallist), np.array(vTKlist), vTKsplits", 'converter-order'),
+    (CS, "        return {'i': self.i, 'j': self.j, 'R': self.R, 'dx': self.dx}", "        return {'i': self.i, 'j': self.j, 'R': self.R, 'dx': self.R}", 'yaml-tables'),
+    (CS, "yaml.add_constructor(PAIRSTATE_YAMLTAG, PairState.PairState_constructor)", "yaml.add_constructor('!Pairstate', PairState.PairState_constructor)", 'yaml-tables'),
+    (OC, "                for tag in tags: diffuser.tagdict[tag], diffuser.tagdicttype[tag] = i, tagtype", "                for t in tags: diffuser.tagdict[tag], diffuser.tagdicttype[tag] = i, tagtype",
+     'no-stale-loop-variable'),
+    (GF, "        GFcalc.jumppairs = tuple((pair[0], pair[1]) for pair in HDF5group['jumppairs'])", "        GFcalc.jumppairs = tuple((GFcalc.invmap[pair[0]], GFcalc.invmap[pair[1]]) for pair in HDF5group['jumppairs'])",
+     'stored-value-unchanged'),
+    (OC, "                    'GFexpansion',\n", "", None),
+]
+NEUTRALS = [
+    (OC, "        diffuser.threshold = diffuser.crys.threshold\n", "        diffuser.threshold = getattr(diffuser.crys, 'threshold')\n"),
+]
